@@ -10,8 +10,10 @@ META = {
         'int16_samples_to_float32 / float_samples_to_int16 with numpy\'s '
         'promotion rules (float32 array op Python int -> float32, astype(int16) '
         '= truncation) written into the translator; the length arithmetic of '
-        'repeat_samples_to_duration is an NRA lemma in the standard model of '
-        'floating point. E1: crop_samples and repeat_samples_to_duration are '
+        'repeat_samples_to_duration (number of copies, the arguments the call '
+        'to crop_samples binds, the slice bounds) is an NRA lemma in the '
+        'standard model of floating point generated from the ASTs of both '
+        'functions; a counterexample is replayed on the real function. E1: crop_samples and repeat_samples_to_duration are '
         'executed on short arrays of symbolic samples with symbolic offsets / '
         'durations (np-lite), and the solver shows the result is exactly the '
         'existing samples of the requested window / the cyclic repetition of '
@@ -169,49 +171,125 @@ def h_pcm_witness(c):
   c.check(int(z[0]) == v, 'L-C20-1 PCM round trip loses a sample value')
 
 
+def _length_terms(rate, tag):
+  """Builds, from the ASTs of repeat_samples_to_duration and crop_samples, the
+  number of copies, the slice bounds and the specified length in the standard
+  model of binary64.  Returns (L, d, reps, lo, hi, spec, side constraints)."""
+  import ast  # pylint: disable=g-import-not-at-top
+  import z3  # pylint: disable=g-import-not-at-top
+  from engine import fpk  # pylint: disable=g-import-not-at-top
+  rep, _ = fpk.get_function('audio_io', 'repeat_samples_to_duration')
+  crop, _ = fpk.get_function('audio_io', 'crop_samples')
+  tr = fpk.StdModel(tag=tag)
+  L = z3.Int('L')
+  d = z3.Real('d')
+  tr.declare_nonneg(L)
+  tr.declare_nonneg(d)
+  rparams = [a.arg for a in rep.args.args]
+  if len(rparams) != 3:
+    raise fpk.UnsupportedConstruct('repeat_samples_to_duration signature')
+  env = {'len(%s)' % rparams[0]: fpk.V(L, 'int'),
+         rparams[1]: fpk.V(z3.IntVal(rate), 'int'),
+         rparams[2]: fpk.V(d, 'fp')}
+  tr.assigns(rep.body, env)
+  if 'num_repeats' not in env:
+    raise fpk.UnsupportedConstruct('num_repeats not reached in '
+                                   'repeat_samples_to_duration')
+  reps = env['num_repeats']
+  # the array that is cropped must be the concatenation of num_repeats copies
+  conc = [n for n in ast.walk(rep) if isinstance(n, ast.Assign) and
+          'concatenate' in ast.unparse(n.value)]
+  if len(conc) != 1 or ast.unparse(conc[0].value).replace(' ', '') != (
+      'np.concatenate([%s]*num_repeats)' % rparams[0]):
+    raise fpk.UnsupportedConstruct('unexpected construction of the repeated '
+                                   'signal: %s' % [ast.unparse(c) for c in conc])
+  repeated_name = conc[0].targets[0].id
+  calls = [n for n in ast.walk(rep) if isinstance(n, ast.Call) and
+           ast.unparse(n.func) == 'crop_samples']
+  if len(calls) != 1:
+    raise fpk.UnsupportedConstruct('expected one call of crop_samples')
+  call = calls[0]
+  cparams = [a.arg for a in crop.args.args]
+  bound = {}
+  for pname, node in zip(cparams, call.args):
+    bound[pname] = node
+  for kw in call.keywords:
+    bound[kw.arg] = kw.value
+  if ast.unparse(bound[cparams[0]]) != repeated_name:
+    raise fpk.UnsupportedConstruct('crop_samples is not applied to the '
+                                   'repeated signal')
+  cenv = {}
+  for pname in cparams[1:]:
+    cenv[pname] = tr.expr(bound[pname], env)
+  tr.assigns(crop.body, cenv)
+  sl = [n for n in ast.walk(crop) if isinstance(n, ast.Subscript) and
+        isinstance(n.slice, ast.Slice) and ast.unparse(n.value) == cparams[0]]
+  if len(sl) != 1 or sl[0].slice.step is not None:
+    raise fpk.UnsupportedConstruct('expected one slice of the samples')
+  lo = tr.expr(sl[0].slice.lower, cenv) if sl[0].slice.lower is not None else (
+      fpk.V(z3.IntVal(0), 'int'))
+  hi = tr.expr(sl[0].slice.upper, cenv)
+  rets = [n for n in ast.walk(rep) if isinstance(n, ast.Return)]
+  spec = tr.expr(ast.parse('int(%s * %s)' % (rparams[2], rparams[1]),
+                           mode='eval').body, env)
+  for v in (reps, lo, hi, spec):
+    if v.kind != 'int':
+      raise fpk.UnsupportedConstruct('a count is not an integer')
+  return L, d, reps.t, lo.t, hi.t, spec.t, tr.side, len(rets)
+
+
 def _length_lemma(job):
   import time  # pylint: disable=g-import-not-at-top
   import z3  # pylint: disable=g-import-not-at-top
-  u = z3.Q(1, 2**53)
+  from engine import fpk  # pylint: disable=g-import-not-at-top
   obligations = []
   status = 'ok'
   err = None
+  violations = []
   for rate in (8000, 16000, 22050, 44100, 48000):
-    L = z3.Int('L')
-    d = z3.Real('d')
-    d1, d2, d3 = z3.Reals('d1 d2 d3')
-    reps, tot = z3.Ints('reps tot')
-    base = [L >= 1, L <= 100000, d > 0, d <= 100]
-    base += [z3.And(x >= -u, x <= u) for x in (d1, d2, d3)]
-    seq_dur = z3.ToReal(L) / rate * (1 + d1)
-    q = d / seq_dur * (1 + d2)
-    # reps = ceil(q)
-    base += [z3.ToReal(reps) >= q, z3.ToReal(reps) < q + 1]
-    prod = d * rate * (1 + d3)
-    # tot = int(prod) (prod > 0: floor)
-    base += [z3.ToReal(tot) <= prod, z3.ToReal(tot) > prod - 1]
+    try:
+      L, d, reps, lo, hi, spec, side, _ = _length_terms(rate, 'r%d' % rate)
+    except fpk.UnsupportedConstruct as e:
+      return {'status': 'inconclusive', 'obligations': obligations,
+              'error': 'cannot regenerate L-C20-2 from the source: %s' % e}
+    base = [L >= 1, L <= 100000, d > 0, d <= 100] + list(side)
+    # the slice [lo:hi] of reps*L samples is exactly the first `spec` samples
+    good = z3.And(lo == 0, hi == spec, reps * L >= hi, spec >= 0)
     s = z3.Solver()
-    s.set('timeout', 60000)
+    s.set('timeout', 120000)
     s.add(base)
-    s.add(reps * L < tot)
+    s.add(z3.Not(good))
     t0 = time.time()
     r = str(s.check())
     dt = time.time() - t0
     obligations.append({
         'lemma': 'L-C20-2[rate=%d]' % rate, 'statement':
-            'forall L in [1,1e5], d in (0,100]: ceil(fl(d/fl(L/rate)))*L >= '
-            'int(fl(d*rate)) (standard model): the repeated signal is never '
-            'shorter than the requested number of samples',
+            'forall L in [1,1e5], d in (0,100]: the slice bounds computed by '
+            'crop_samples inside repeat_samples_to_duration are [0, '
+            'int(fl(d*rate))) and num_repeats*L covers them (terms generated '
+            'from the two function ASTs, standard model of binary64)',
         'expect': 'unsat', 'result': r, 'seconds': round(dt, 3),
         'backend': 'z3 nlsat', 'discharged': r == 'unsat'})
-    if r != 'unsat':
+    if r == 'sat':
+      m = s.model()
+      dv = m.eval(d, model_completion=True)
+      violations.append({
+          'label': 'L-C20-2 repeat_samples_to_duration returns a wrong number '
+                   'of samples',
+          'values': {'L': m.eval(L, model_completion=True).as_long(),
+                     'rate': rate,
+                     'd': [dv.numerator_as_long(), dv.denominator_as_long()]},
+          'source': 'solver'})
+    elif r != 'unsat':
       status, err = 'inconclusive', 'L-C20-2[rate=%d]: %s' % (rate, r)
     s2 = z3.Solver()
     s2.set('timeout', 20000)
     s2.add(base)
+    s2.add(good)
     r2 = str(s2.check())
     obligations.append({'lemma': 'L-C20-2-twin[rate=%d]' % rate,
-                        'statement': 'assumptions satisfiable', 'expect': 'sat',
+                        'statement': 'assumptions and conclusion jointly '
+                                     'satisfiable', 'expect': 'sat',
                         'result': r2, 'discharged': r2 == 'sat', 'seconds': 0,
                         'backend': 'z3 nlsat'})
     if r2 != 'sat':
@@ -219,9 +297,27 @@ def _length_lemma(job):
   out = {'obligations': obligations, 'status': status,
          'solver_queries': len(obligations),
          'solver_seconds': round(sum(o['seconds'] for o in obligations), 3)}
+  if violations:
+    out['status'] = 'violation'
+    out['violations'] = violations[:2]
   if err:
     out['error'] = err
   return out
+
+
+def h_length_witness(c):
+  """Replay of an L-C20-2 counterexample on the real function."""
+  from fractions import Fraction  # pylint: disable=g-import-not-at-top
+  np = c.np
+  a = c.mod('audio_io')
+  L, rate = int(c.values['L']), int(c.values['rate'])
+  dur = float(Fraction(*c.values['d']))
+  x = (np.arange(L) % 251).astype(np.int16)
+  out = a.repeat_samples_to_duration(x, rate, dur)
+  want = int(dur * rate)
+  c.check(len(out) == want and bool((out == x[np.arange(want) % L]).all()),
+          'L-C20-2 repeat_samples_to_duration returns a wrong number of '
+          'samples')
 
 
 def _samples(c, n):
@@ -307,6 +403,7 @@ def h_stereo(c):
 
 
 HARNESSES = {'h_crop': h_crop, 'h_repeat': h_repeat, 'lemma_pcm': h_pcm_witness,
+             'lemma_length': h_length_witness,
              'h_stereo': h_stereo}
 FUNCS = {'lemma_pcm': _pcm_lemma, 'lemma_length': _length_lemma}
 
